@@ -748,6 +748,28 @@ func Run(c *fw.Ctx) {
 	}
 
 	mark("b1:all-strings")
+	// ---------------- (a4) the constructor: NewLabels() is the empty list
+	{
+		l := rfc1035label.NewLabels()
+		c.Eval(1)
+		if l == nil || len(l.Labels) != 0 || len(l.ToBytes()) != 0 || l.Length() != 0 {
+			obs := "nil"
+			if l != nil {
+				obs = fmt.Sprintf("names %q, encoding %x, Length() %d", l.Labels, l.ToBytes(), l.Length())
+			}
+			c.Report(fw.Violation{Fingerprint: "rfc1035label.NewLabels|not-the-empty-list", Order: order, Scope: "a4:constructor", Input: "rfc1035label.NewLabels()",
+				Observed: obs, Expected: "a label set with no names that encodes to no bytes", Explain: "encoding the empty list of names and decoding it returns the empty list"})
+		} else {
+			l.Labels = append(l.Labels, "a.example")
+			if want := labelref.Encode([]string{"a.example"}); !bytes.Equal(l.ToBytes(), want) {
+				c.Report(fw.Violation{Fingerprint: "rfc1035label.NewLabels|append-then-encode", Order: order, Scope: "a4:constructor", Input: `l := rfc1035label.NewLabels(); l.Labels = append(l.Labels, "a.example")`,
+					Observed: fmt.Sprintf("encoding %x", l.ToBytes()), Expected: fmt.Sprintf("%x", want)})
+			}
+			c.Nontrivial(1)
+		}
+		order++
+		c.Scope("a4:constructor", "what", "NewLabels() is the empty list; a name appended to it is encoded", "cases", 1)
+	}
 	// ---------------- (b2) structural cases
 	{
 		seen := map[string]struct{}{}
